@@ -120,6 +120,26 @@ Proof.
   destruct (lam_view acls0 akids0); reflexivity.
 Qed.
 
+(* a call whose callee is an [Other] node: inlined only when that node is a lambda with default values that python
+   binds by position alone *)
+Lemma res_call_other_shape st cls atoms cs args kwn kwv :
+  res st (Call (Other cls atoms cs) args kwn kwv) =
+  let stays := Call (res st (Other cls atoms cs)) (map (res st) args) kwn (map (res st) kwv) in
+  match lam_parts cls cs, kwn with
+  | Some (_, _, _, b, lv), [] =>
+      if lv_simple lv && Nat.eqb (length (lv_args lv)) (length args) && negb (existsb is_starred args)
+      then if overlaps (flat_map names_in (map (res st) args)) (inner_binders b) then stays
+           else res (combine (lv_args lv) (map (@Some expr) (map (res st) args)) :: st) b
+      else stays
+  | _, _ => stays
+  end.
+Proof.
+  cbn [res]. unfold lam_parts. destruct (String.prefix "Lambda;" cls); [|reflexivity].
+  destruct cs as [|a0 [|b0 [|c0 cs]]]; try reflexivity;
+    (destruct a0 as [| | | | | | | | | | | | | | | | | |acls0 aatoms0 akids0]; try reflexivity).
+  destruct (lam_view acls0 akids0); [|reflexivity]. destruct kwn; reflexivity.
+Qed.
+
 Lemma inner_binders_other cls atoms cs :
   inner_binders (Other cls atoms cs) = lam_bound cls cs ++ flat_map inner_binders cs.
 Proof. reflexivity. Qed.
